@@ -40,7 +40,7 @@ ASSUMPTIONS = [
   "CG only: if stage 2 fails but MuJoCo's own CG (float64, tolerance 1e-8) is at least as far from the optimum of its own problem, the world passes (CG stops on per-iteration improvement, which does not bound the remaining gap on ill-conditioned cones); counted in certificate_cg_as_converged_as_mujoco",
   "if the ITERATIONS overflow bit is set the certificate is replaced by cost(qacc) <= cost(MuJoCo's qacc, same solver and iteration limit) + the same allowance (skipped if MuJoCo assembled a different number of rows)",
   "O2 allows 2e-3*(1+max|qacc_ref|) + sqrt(2*allowance*(M^-1)_ii) per dof (what a point within the allowed suboptimality may deviate by strong convexity) and is applied only where MuJoCo's rows have the same count as MJWarp's, MuJoCo raised no warning and MuJoCo's own qacc passes the certificate on MuJoCo's own problem",
-  "O3: force within 2e-4*(1+max|force|) + 64*eps32*D*(|J||qacc|+|aref|) per row (MJWarp carries J*qacc-aref in float32 through the iterations); states compared only for rows farther than that from a zone boundary (for an elliptic contact: farther than the coarsest of its rows allows, mixed by 1+1/mu as for its forces, because the zone is decided by all rows of the contact together)",
+  "O3: force within 2e-4*(1+max|force|) + max(64, 2*niter)*eps32*D*(|J||qacc|+|aref|) per row (MJWarp carries J*qacc-aref in float32 through the iterations, one incremental update per iteration); states compared only for rows farther than that from a zone boundary (for an elliptic contact: farther than the coarsest of its rows allows, mixed by 1+1/mu as for its forces, because the zone is decided by all rows of the contact together)",
   "O3 qfrc_constraint = J'efc.force within 2e-4*(1+magnitudes) + 32*eps32*|J|'(D*(|J||qacc|+|aref|)): the Newton/pyramidal path recovers qfrc_constraint from the gradient (M*qacc - qfrc_smooth - grad), so it differs from J'force by |J|' times the float32 uncertainty of the forces themselves (half of what O3 grants per row); measured on the unchanged tree over the size scenes, seeds 0-3: at most 9.1*eps32 of that quantity (stiff contacts, D up to 1.6e4, where rounding qacc to float32 alone moves the true gradient by more than the observed difference); negligible next to the first term on the soft scenes",
   "opt.iterations=100 (MuJoCo default), opt.tolerance default 1e-8 (clamped to 1e-6 by put_model); CPU backend",
 ]
@@ -218,7 +218,9 @@ def check_world(c, pre, mjm, m, d, w, overflow, mjd, tagkey, mjd_any=None, mjd_r
   # O3: forces implied by qacc
   if nefc:
     jmag = np.abs(P.J) @ np.abs(qacc) + np.abs(P.aref)
-    ftol = 2e-4 * (1 + np.max(np.abs(ev["force"]))) + 64 * EPS32 * P.D * jmag
+    # Jaref is updated incrementally (Jaref += alpha * Jv) once per iteration, two roundings each: after n iterations it is off by up
+    # to 2n eps32 of its magnitude (worst case, linear); 64 is the floor for short runs (CG at its cap of 100 iterations: 68 observed)
+    ftol = 2e-4 * (1 + np.max(np.abs(ev["force"]))) + max(64, 2 * int(d.solver_niter.numpy()[w])) * EPS32 * P.D * jmag
     # elliptic cone rows mix the residuals of the whole contact
     for r_, fri, mu in P.cones:
       ftol[r_] = np.max(ftol[r_]) * (1 + 1 / max(mu, 1e-3))
